@@ -154,7 +154,9 @@ def execute(cfg, threads_prog, strat_spec, sched_seed, pre_steps, ctx_spec=None,
         out["errors"] = [repr(t.error) for t in sched.threads if t.error is not None]
         out["steps"] = sched.step
         out["switches"] = len(sched.switches)
-        out["switch_sites"] = [list(map(str, s[3])) if s[3] else None for s in sched.switches][:50]
+        out["switch_sites"] = [list(map(str, s[3][:2])) if s[3] else None for s in sched.switches][:50]
+        out["switch_funcs"] = [(s[1], s[3][2] if s[3] and len(s[3]) > 2 else None) for s in sched.switches][:50]
+        out["points"] = {t.tid: t.points for t in sched.threads}
         out["choices"] = sched.choices
         out["contended"] = sched.contended
         out["preempt_in_op"] = sched.preempt_in_op
